@@ -45,11 +45,11 @@ def check(prog, ctx):
     ctx.rule('C15.d', 'every iteration in the closure of Eigensystem is bounded: each loop is counted or tests a counter against a bound', 4)
     ctx.rule('C15.e', 'inverse iteration: the matrix handed to Inverse (which exits on singular input) is not M - lambda I with lambda an unperturbed '
              'computed eigenvalue; every eigenvector search starts from a fixed vector, not from a previously found eigenvector', 2)
-    householder(prog, ctx)
-    qr(prog, ctx)
-    eigenvalues(prog, ctx)
-    bounded(prog, ctx)
-    inverse_iteration(prog, ctx)
+    ctx.sub('householder', householder, prog, ctx)
+    ctx.sub('qr', qr, prog, ctx)
+    ctx.sub('eigenvalues', eigenvalues, prog, ctx)
+    ctx.sub('bounded', bounded, prog, ctx)
+    ctx.sub('inverse_iteration', inverse_iteration, prog, ctx)
 
 
 def householder(prog, ctx):
